@@ -36,6 +36,32 @@ Definition spec_width (cp : Z) : Z :=
   else if in_table cp wide_ranges then 2
   else 1.
 
+(* Widths the library itself documents -- independent of the tables, so that an edit of a
+   table (or of the translator) that changes one of them is a visible contradiction:
+   man/tickit_utf8_count.3 (U+0301 is not a grapheme of its own), t/01utf8.c (U+00E9, U+0301,
+   U+5F61, U+FF21, U+1F3E0, U+30CE, U+7CA0, U+253B, U+2501), the comment above mk_wcwidth in
+   src/unicode.h (SOFT HYPHEN 1, ZERO WIDTH SPACE 0, Hangul Jamo medial vowels and final
+   consonants U+1160..U+11FF 0, Hangul Jamo initial consonants and full-width forms 2, printable
+   ISO 8859-1 characters 1). *)
+Definition documented_widths : list (Z * Z) :=
+  [(0x20, 1); (0x41, 1); (0x7e, 1); (0xa0, 1); (0xad, 1); (0xe9, 1); (0xff, 1);
+   (0x300, 0); (0x301, 0); (0x36f, 0); (0x200b, 0); (0x1160, 0); (0x1161, 0); (0x11a8, 0); (0x11ff, 0);
+   (0x1100, 2); (0x115f, 2); (0x2501, 1); (0x253b, 1); (0x30ce, 2); (0x5f61, 2); (0x7ca0, 2);
+   (0xac00, 2); (0xff01, 2); (0xff21, 2); (0xff60, 2); (0x1f3e0, 2)].
+
+Definition documented_width (cp : Z) : option Z :=
+  match find (fun e => fst e =? cp) documented_widths with
+  | Some e => Some (snd e)
+  | None => None
+  end.
+
+(* oracle for an observed width: where the library documents a width, it must be that one *)
+Definition width_checkb (cp w : Z) : bool :=
+  match documented_width cp with
+  | Some d => w =? d
+  | None => true
+  end.
+
 (* ------------------------------------------------------------------ decoding *)
 
 Record item := mkItem { it_cp : Z; it_nb : Z; it_w : Z }.
